@@ -22,7 +22,7 @@ PID = "C02"
 LEVEL = "exploration"
 RULE = (
     "evidence: cells generated from VERIF_SEED over target families {interior Gaussian, wall-abutting, bimodal, periodic von Mises, exp-prior, zero-likelihood slab, likelihood 1000x narrower than the prior} x "
-    "kernel x resampler x clustering, d in {1,2}; R seeded full runs per cell at N=32 and at 4N=128. evaluations = sampler runs; non-trivial = "
+    "kernel x resampler x clustering (plus cells in volume-variation mode with tight targets), d in {1,2}; R seeded full runs per cell at N=32 and at 4N=128. evaluations = sampler runs; non-trivial = "
     "a run with >= 2 prior-phase and >= 3 annealing iterations; distinct = (cell, N, replica seed). twins: Hypothesis-generated configurations, "
     "divergence index and seed pairs; non-trivial = clustering on and >= 1 post-divergence annealing iteration."
 )
@@ -44,6 +44,10 @@ def cells_for(tier, seed):
     cells = []
     for i in range(n):
         cells.append(ens.make_cell(int(rng.integers(0, 2**31 - 1)), family=FAMS[i % len(FAMS)], kernel=["tpcn", "rwm"][(i + i // len(FAMS)) % 2], clustering=bool(i % 2 == 0), N=32))
+    # dynamic (volume-variation) mode with a target tight enough that the schedule repeatedly stays / takes tiny steps
+    for j in range(1 if tier == "quick" else 4):
+        cells.append(ens.make_cell(int(rng.integers(0, 2**31 - 1)), family=["gauss", "exp-prior", "wall", "bimodal"][j % 4], kernel=["rwm", "tpcn"][j % 2],
+                                   clustering=False, d=2, N=32, vv=[0.05, 0.1, 0.03, 0.3][j % 4]))
     return cells
 
 
